@@ -4,7 +4,10 @@
 
 use super::scheduler::*;
 
+#[cfg(not(desync_verif))]
 use std::sync::{Arc};
+#[cfg(desync_verif)]
+use crate::verif::sync::{Arc};
 use std::marker::{PhantomData};
 use futures::prelude::*;
 use futures::channel::oneshot;
@@ -248,7 +251,10 @@ impl<T: 'static+Send> Desync<T> {
 
 impl<T: Send> Drop for Desync<T> {
     fn drop(&mut self) {
+        #[cfg(not(desync_verif))]
         use std::thread;
+        #[cfg(desync_verif)]
+        use crate::verif::thread;
 
         // Take the data we're about to drop from the object
         let data = DataRef::<T>(self.data);
